@@ -124,6 +124,17 @@ pub fn run(ctx: &Ctx) -> i32 {
             acc.count("huge_root_collections");
             docs = vec![if rng.chance(1, 2) { Val::Map((0..n).map(|k| (Val::Str(format!("k{k}")), Val::Int((k % 3) as i128))).collect()) } else { Val::Seq((0..n).map(|k| Val::Int((k % 3) as i128)).collect()) }];
         }
+        let mut long_text = false;
+        if i % 100 == 57 {
+            // tens of KiB of multi-byte characters behind a pad of 0..7 ASCII bytes: in xt's own YAML / TOML / JSON
+            // output such a character then sits across the 16 KiB / 32 KiB / ... marks at which parsers refill
+            let unit = *rng.pick(&["\u{e9}", "\u{65e5}", "\u{1f600}", "a\u{e9}"]);
+            let bytes = *rng.pick(&[33_000usize, 40_000, 66_000, 100_000]);
+            let s = format!("{}{}", "a".repeat(rng.below(8)), unit.repeat(bytes / unit.len()));
+            docs = vec![Val::Map(vec![(Val::s("k"), Val::Str(s)), (Val::s("n"), Val::Int(1))])];
+            long_text = true;
+            acc.count("long_multibyte_text_documents");
+        }
         cl.add_to(acc);
         acc.distinct(&docs.iter().map(|d| d.show()).collect::<Vec<_>>());
         acc.sample_every(1499, || json!({"documents": docs.iter().map(|d| ev::truncate(&d.show(), 120)).collect::<Vec<_>>()}));
@@ -134,7 +145,9 @@ pub fn run(ctx: &Ctx) -> i32 {
             src.extend_from_slice(&spell(Fmt::Json, d, &mut rng, &mut feats, true));
             src.push(b'\n');
         }
-        let scheds = if docs[0].nodes() > 10000 { [Sched::All, Sched::Fixed(4096), Sched::Random(rng.next(), 8192)] } else { [Sched::One, Sched::Fixed(*rng.pick(&[2usize, 3, 5, 4096])), Sched::Random(rng.next(), 16)] };
+        let scheds = if long_text {
+            [Sched::All, Sched::Fixed(16384), Sched::Fixed(*rng.pick(&[8192usize, 16383, 16385, 65536]))]
+        } else if docs[0].nodes() > 10000 { [Sched::All, Sched::Fixed(4096), Sched::Random(rng.next(), 8192)] } else { [Sched::One, Sched::Fixed(*rng.pick(&[2usize, 3, 5, 4096])), Sched::Random(rng.next(), 16)] };
         let mut own_outputs: Vec<(Fmt, Vec<u8>)> = vec![];
         for f in ALL {
             let input: Vec<u8> = if f == Fmt::Toml {
@@ -237,9 +250,9 @@ pub fn run(ctx: &Ctx) -> i32 {
             }
         }
     });
-    let rule = format!("{} document sets (1-5 collection-rooted documents; maps get a first key from a pool of {} detection-hostile keys: empty, numeric-looking, quoted, YAML/TOML indicators, non-ASCII incl. U+0080-U+07FF) x 4 output formats (TOML: first document, TOML-representable), every 600th set a single root map/array of 65 535..70 000 entries; every output is offered to the detect hook as a slice and under 3 read schedules, and xt(None->X) is compared with xt(F->X) in slice and reader mode; the outputs of one set are also fed one after the other through ONE translator without a source format; distinct non-trivial = distinct document sets", n, FIRST_KEYS.len());
+    let rule = format!("{} document sets (1-5 collection-rooted documents; maps get a first key from a pool of {} detection-hostile keys: empty, numeric-looking, quoted, YAML/TOML indicators, non-ASCII incl. U+0080-U+07FF) x 4 output formats (TOML: first document, TOML-representable), every 600th set a single root map/array of 65 535..70 000 entries, every 100th a map holding 33-100 KB of multi-byte characters behind 0..7 ASCII bytes (read whole and 16 384 / 8192 / 16 383 / 16 385 / 65 536 bytes at a time); every output is offered to the detect hook as a slice and under 3 read schedules, and xt(None->X) is compared with xt(F->X) in slice and reader mode; the outputs of one set are also fed one after the other through ONE translator without a source format; distinct non-trivial = distinct document sets", n, FIRST_KEYS.len());
     ev::finish(
-        Finish { ctx, level: "exploration", rule, assumptions: vec!["TOML exceptions decided by the harness's hand-written JSON reader and libyaml-event reader, not by xt".into(), "an empty table is written to TOML as zero bytes; that empty text must still be recognised as TOML".into()], extra: serde_json::Map::new(), exhaustive: false, min_distinct: 1000, must_reach: vec![("pipeline_equivalence_checked".into(), 1000), ("huge_root_collections".into(), 5), ("detected_toml_as_toml".into(), 100), ("detected_yaml_as_yaml".into(), 100), ("detected_msgpack_as_msgpack".into(), 100), ("detected_json_as_json".into(), 100), ("own_outputs_through_one_translator".into(), 1000), ("json_output_after_toml_or_yaml_on_one_translator".into(), 1000)] },
+        Finish { ctx, level: "exploration", rule, assumptions: vec!["TOML exceptions decided by the harness's hand-written JSON reader and libyaml-event reader, not by xt".into(), "an empty table is written to TOML as zero bytes; that empty text must still be recognised as TOML".into()], extra: serde_json::Map::new(), exhaustive: false, min_distinct: 1000, must_reach: vec![("pipeline_equivalence_checked".into(), 1000), ("huge_root_collections".into(), 5), ("long_multibyte_text_documents".into(), 20), ("detected_toml_as_toml".into(), 100), ("detected_yaml_as_yaml".into(), 100), ("detected_msgpack_as_msgpack".into(), 100), ("detected_json_as_json".into(), 100), ("own_outputs_through_one_translator".into(), 1000), ("json_output_after_toml_or_yaml_on_one_translator".into(), 1000)] },
         acc,
     )
 }
